@@ -500,7 +500,7 @@ func init() {
 			bsz, workers, bound = 3, []int{1, 2, 3}, 2
 		}
 		// existing pod distributions: multisets of <=2 from the menu
-		menu := []c02Existing{{"x", "n1", "", ""}, {"x", "n2", "", ""}, {"y", "n1", "", ""}, {"y", "n2", "", ""}, {"y", "n2", "other", ""}, {"y", "n1", "", "x"}}
+		menu := []c02Existing{{"x", "n1", "", ""}, {"x", "n2", "", ""}, {"y", "n1", "", ""}, {"y", "n2", "", ""}, {"y", "n2", "other", ""}, {"y", "n1", "", "x"}, {"y", "n2", "", "x"}}
 		var exs [][]c02Existing
 		exs = append(exs, nil)
 		for i := range menu {
@@ -512,7 +512,7 @@ func init() {
 		bl := batches(len(c02Shapes), bsz)
 		layouts := []int{0, 1, 2}
 		prefs := []options.PreferencePolicy{options.PreferencePolicyRespect, options.PreferencePolicyIgnore}
-		r.Rule = fmt.Sprintf("node layouts {2 nodes in 2 zones, +1 small node, none} x existing pod distributions (multisets of <=2 of %d kinds: app x/y per node, another namespace, a running pod carrying anti-affinity) x all batches of <=%d pods from %d inter-pod shapes (required/preferred anti-affinity and affinity on hostname/zone, self- and cross-selecting, all-namespaces selector; DoNotSchedule / ScheduleAnyway spread on zone/hostname/capacity-type with maxSkew 1-2, minDomains, matchLabelKeys, zone-confined) x both preference policies x workers %v with <=%d completion-order deviations, through the real Provisioner.Schedule + CreateNodeClaims. "+
+		r.Rule = fmt.Sprintf("node layouts {2 nodes in 2 zones, +1 small node, none} x existing pod distributions (multisets of <=2 of %d kinds: app x/y per node, another namespace, a running pod carrying anti-affinity) x all batches of <=%d pods from %d inter-pod shapes (required/preferred anti-affinity and affinity on hostname/zone, self- and cross-selecting, all-namespaces selector; DoNotSchedule / ScheduleAnyway spread on zone/hostname/capacity-type with maxSkew 1-2, minDomains, matchLabelKeys, zone-confined) x both preference policies x workers %v with <=%d completion-order deviations (<=1 with three workers), through the real Provisioner.Schedule + CreateNodeClaims. "+
 			"Oracle over domain sets (a real node -> its label; a new NodeClaim -> itself for hostname and, for zone / capacity-type, every value some permitted launch of the created NodeClaim can have): required anti-affinity in either direction incl. running pods (violation iff domain sets intersect); required affinity (every domain the pod can end in must be able to hold a match; self-matching groups must not split); DoNotSchedule skew in every domain that received a carrier pod (flagged only if exceeded under every assignment of undetermined pods and both readings of the eligible domains). non-trivial = distinct (case, outcome) with a placed pod that carries or is selected by a constraint", len(menu), bsz, len(c02Shapes), workers, bound)
 		r.Assumptions = []string{"node inclusion policies at their defaults", "the affinity bootstrap clause is judged leniently (a self-matching pod with no other match anywhere may start a domain)", "Go map iteration order (random domain choice) is sampled, not enumerated"}
 		n := enum.Size(len(bl), len(exs), len(layouts), len(prefs))
@@ -520,7 +520,11 @@ func init() {
 			d := enum.Odo(idx, len(bl), len(exs), len(layouts), len(prefs))
 			for _, wk := range workers {
 				c := c02Case{layout: layouts[d[2]], existing: exs[d[1]], batch: bl[d[0]], pref: prefs[d[3]], workers: wk}
-				ex := &explore.Explorer{Bound: bound, MaxExecs: 200}
+				b := bound
+				if wk >= 3 && b > 1 {
+					b = 1 // three workers: one completion-order deviation (keeps the thorough tier within its deadline)
+				}
+				ex := &explore.Explorer{Bound: b, MaxExecs: 200}
 				ex.Exec = func(run *explore.Run) {
 					env, zones := c02Build(c)
 					out := env.runPass(run, wk)
